@@ -197,7 +197,7 @@ func propC10(run *Run, n int) {
 		cfg := DefaultCfg()
 		cfg.ScalarBias = 4
 		if r.Chance(1, 3) {
-			cfg.Keys = []string{"a", "b", "a/b", "m~n", "", "é", "x"}
+			cfg.Keys = []string{"a", "b", "a/b", "m~n", "", "é", "x", "01", "007", "+1", "-1", "-0"}
 		}
 		a, b := cfg.Pair(r)
 		if a.K == KVoid || b.K == KVoid {
